@@ -107,7 +107,7 @@ fn whitespace_5() { check_whitespace::<5>() }
 #[kani::unwind(10)]
 fn whitespace_8() { check_whitespace::<8>() }
 #[kani::proof]
-#[kani::unwind(7)]
+#[kani::unwind(12)]
 fn hex_4() { check_hex::<4>() }
 #[kani::proof]
 #[kani::unwind(7)]
@@ -116,5 +116,5 @@ fn hostname_4() { check_hostname::<4>() }
 #[kani::unwind(7)]
 fn url_4() { check_url::<4>() }
 #[kani::proof]
-#[kani::unwind(12)]
+#[kani::unwind(23)]
 fn email_4() { check_email::<4>() }
